@@ -334,7 +334,7 @@ class SchedSim:
             k.fault("worker_exception")
             fut.exc = RuntimeError("injected worker failure")
         k.log(ev="complete", jid=fut.jid, ens=info["ens"], busy=busy,
-              status=(fut.payload or {}).get("status"))
+              status=(fut.payload or {}).get("status"), failed=fut.exc is not None)
         for m in self.monitors:
             m.on_complete(fut, info)
         return fut
@@ -516,9 +516,11 @@ def run_case(case, monitor_factory, history_checks=None, keep_dir=False, scratch
         SC.build_rundir(scn, rundir)
         for inc, spec in enumerate(scn["plan"]):
             inp = spec.get("inp", "infretis.toml" if inc == 0 else "restart.toml")
+            if inc > 0 and inp == "restart.toml" and not os.path.isfile(os.path.join(rundir, inp)):
+                inp = "infretis.toml"     # nothing was ever completed: the user starts over
             spec = dict(spec, inp=inp)
             if spec.get("steps") is not None and os.path.isfile(os.path.join(rundir, inp)):
-                if not (inc == 0 and inp == "infretis.toml"):
+                if True:
                     try:
                         set_steps(os.path.join(rundir, inp), spec["steps"])
                     except Exception as exc:   # e.g. damaged restart file
